@@ -3,8 +3,9 @@
 
      in_same_network, has_ip_addr, is_broadcast(_v4), is_unicast_v4, get_source_address_ipv4 (Some/None),
      route, has_neighbor, lookup_hardware_addr, dispatch_ip (addressing part only),
-     process_ethernet (destination filter), process_arp, process_ipv4 / process_ipv6 (up to the
-     neighbor-cache refresh and the auto echo reply), process_ndisc (NA / NS), flush_neighbor_cache,
+     process_ethernet (destination filter), process_ieee802154 / process_sixlowpan (PAN filter, broadcast
+     rule), process_arp, process_ipv4 / process_ipv6 (up to the neighbor-cache refresh and the auto
+     echo reply), process_ndisc (NA / NS), flush_neighbor_cache,
      update_ip_addrs, and - for the correspondence stream `neigh` - Interface::poll's
      ingress loop + socket_egress over datagram-like sockets (UDP / ICMP / raw, all of which
      dispatch the head of a FIFO with dequeue_with, i.e. keep the packet when emit fails).
@@ -244,6 +245,12 @@ Inductive v6payload :=
 | P6Na (target : Z) (lladdr : option Z) (override : bool)
 | P6Ns (target : Z) (lladdr : option Z).
 
+(* RawHardwareAddress::parse(medium) of a link-layer address option succeeds iff the option carries
+   6 octets on Ethernet, 8 octets (an extended address) on 802.15.4; otherwise `check!` abandons the
+   packet.  In the Z encoding of hardware addresses: *)
+Definition hw_option_ok (i : iface) (l : Z) : bool :=
+  (0 <=? l) && (l <? (if if_ether i then 2 ^ 48 else 2 ^ 64)).
+
 (* InterfaceInner::process_ndisc, NeighborAdvert / NeighborSolicit arms *)
 Definition nh_process_ndisc (i : iface) (now : Z) (src dst : Z) (p : v6payload) : outcome (iface * list frame) :=
   match p with
@@ -251,7 +258,8 @@ Definition nh_process_ndisc (i : iface) (now : Z) (src dst : Z) (p : v6payload) 
   | P6Na target lladdr override =>
       match lladdr with
       | Some l =>
-          if negb (hw_is_unicast i l) || negb (v6_x_is_unicast target) then Ok (i, [])
+          if negb (hw_option_ok i l) then Ok (i, [])
+          else if negb (hw_is_unicast i l) || negb (v6_x_is_unicast target) then Ok (i, [])
           else if override || negb (answer_found (neigh_lookup (if_cache i) (V6 src) now))
           then Ok (set_cache i (neigh_fill (if_cap i) (if_cache i) (V6 src) l now), [])
           else Ok (i, [])
@@ -261,7 +269,8 @@ Definition nh_process_ndisc (i : iface) (now : Z) (src dst : Z) (p : v6payload) 
       let filled :=
         match lladdr with
         | Some l =>
-            if negb (hw_is_unicast i l) || negb (v6_x_is_unicast target) then None
+            if negb (hw_option_ok i l) then None
+            else if negb (hw_is_unicast i l) || negb (v6_x_is_unicast target) then None
             else Some (set_cache i (neigh_fill (if_cap i) (if_cache i) (V6 src) l now))
         | None => Some i
         end in
@@ -290,10 +299,15 @@ Definition nh_process_ipv6 (i : iface) (now : Z) (shw src dst hop : Z) (p : v6pa
 Inductive rxframe :=
 | RxArp (edst : Z) (op sha spa tpa : Z)
 | RxV4Echo (edst esrc src dst : Z)
-| RxV6 (edst esrc src dst hop : Z) (p : v6payload).
+| RxV6 (edst esrc src dst hop : Z) (p : v6payload)
+(* an IEEE 802.15.4 data frame carrying an (IPHC-compressed) IPv6 packet; panok = the destination
+   PAN id is ours or the broadcast PAN, or no PAN id is configured *)
+| Rx154 (panok : bool) (ldst lsrc src dst hop : Z) (p : v6payload).
 
 Definition rx_edst (f : rxframe) : Z :=
-  match f with RxArp e _ _ _ _ => e | RxV4Echo e _ _ _ => e | RxV6 e _ _ _ _ _ => e end.
+  match f with
+  | RxArp e _ _ _ _ => e | RxV4Echo e _ _ _ => e | RxV6 e _ _ _ _ _ => e | Rx154 _ e _ _ _ _ _ => e
+  end.
 
 (* InterfaceInner::process_ethernet: frames for another station are ignored; an IP datagram in a
    link-layer broadcast / multicast frame is discarded unless its IP destination is broadcast /
@@ -311,7 +325,24 @@ Definition nh_process_ethernet (i : iface) (now : Z) (f : rxframe) : outcome (if
     | RxV6 _ esrc src dst hop p =>
         if negb link_unicast && negb (v6_is_multicast dst) then Ok (i, [])
         else nh_process_ipv6 i now esrc src dst hop p
+    | Rx154 _ _ _ _ _ _ _ => Ok (i, [])      (* not an Ethernet frame *)
     end.
+
+(* InterfaceInner::process_ieee802154 + process_sixlowpan for an unfragmented data frame: only the PAN
+   id is filtered (NOT the destination hardware address); an IPv6 datagram in a link-layer
+   broadcast frame must have a multicast destination *)
+Definition nh_process_ieee802154 (i : iface) (now : Z) (f : rxframe) : outcome (iface * list frame) :=
+  match f with
+  | Rx154 panok ldst lsrc src dst hop p =>
+      if negb panok then Ok (i, [])
+      else if (ldst =? IEEE_BROADCAST) && negb (v6_is_multicast dst) then Ok (i, [])
+      else nh_process_ipv6 i now lsrc src dst hop p
+  | _ => Ok (i, [])
+  end.
+
+(* socket_ingress: by medium *)
+Definition nh_process_rx (i : iface) (now : Z) (f : rxframe) : outcome (iface * list frame) :=
+  if if_ether i then nh_process_ethernet i now f else nh_process_ieee802154 i now f.
 
 (* Interface::update_ip_addrs: new address list, neighbor cache flushed *)
 Definition nh_update_ip_addrs (i : iface) (l : list cidr) : iface :=
@@ -389,7 +420,7 @@ Fixpoint sim_ingress (i : iface) (rx : list rxframe) (now : Z) : outcome (iface 
   match rx with
   | [] => Ok (i, [])
   | f :: rest =>
-      do '(i1, f1) <- nh_process_ethernet i now f;
+      do '(i1, f1) <- nh_process_rx i now f;
       do '(i2, f2) <- sim_ingress i1 rest now;
       Ok (i2, f1 ++ f2)
   end.
